@@ -439,7 +439,7 @@ def make_tsa_class(by_value=False):
     return Obj
 
 
-KIND = {"read": 0, "assign": 1, "aug": 2, "misread": 3, "classread": 0, "hasattr": 0}   # a look-up through the class is a read
+KIND = {"read": 0, "assign": 1, "aug": 2, "aug2": 2, "misread": 3, "classread": 0, "hasattr": 0}   # a look-up through the class is a read
 
 
 def tsa_run(progs, chooser, opcode=False):
@@ -467,6 +467,8 @@ def _tsa_run(progs, chooser, opcode=False):
                     tsa_stmts.do_assign(o, arg)
                 elif kind == "aug":
                     tsa_stmts.do_aug(o, arg)
+                elif kind == "aug2":
+                    tsa_stmts.do_aug_two_lines(o, arg)       # the same statement continued on a second physical line
                 else:
                     tsa_stmts.do_misread(o)
         return f
@@ -495,7 +497,7 @@ def serial_results(progs, v0=0):
         for i in range(len(progs)):
             if pos[i] < len(progs[i]):
                 kind, arg = progs[i][pos[i]]
-                nv = arg if kind == "assign" else (v + arg if kind == "aug" else v)
+                nv = arg if kind == "assign" else (v + arg if kind in ("aug", "aug2") else v)
                 pos[i] += 1
                 rec(pos, nv)
                 pos[i] -= 1
@@ -517,7 +519,7 @@ def gen_tsa_progs(rng, allow_misread=False):
             elif r < 0.6:
                 p.append(("assign", rng.randint(1, 9)))
             elif r < 0.95 or not allow_misread:
-                p.append(("aug", rng.randint(1, 5)))
+                p.append(("aug" if rng.random() < 0.8 else "aug2", rng.randint(1, 5)))
             else:
                 p.append(("misread", 0))
         progs.append(p)
